@@ -550,44 +550,39 @@ impl Array {
         // else if all dimensions match
         // else (broadcast)
         } else {
-            let mut flat_indices = vec![0; arrays.len()];
-            let mut slices: Vec<&[Float]> = arrays
-                .iter()
-                .zip(&group_lengths)
-                .map(|(v, &g)| &v.values[0..g])
-                .collect();
-
             for _ in 0..leading_length {
                 let output_offset = flatten_indices(&indices, &output_dimensions);
                 let output_slice =
                     &mut output_values[output_offset..output_offset + output_group_length];
 
+                // slice each array at the current leading indices, without iterating over broadcast dimensions
+                let slices: Vec<&[Float]> = arrays
+                    .iter()
+                    .zip(&group_lengths)
+                    .map(|(array, &group_length)| {
+                        let array_leading_count =
+                            array.dimensions.len().saturating_sub(op_dimension_count);
+                        let offset = slice_offset(
+                            &indices[..leading_count],
+                            &array.dimensions[..array_leading_count],
+                            group_length,
+                        );
+
+                        &array.values[offset..offset + group_length]
+                    })
+                    .collect();
+
                 op(output_slice, &slices);
 
-                for (i, (x, d)) in indices
+                for (x, d) in indices
                     .iter_mut()
                     .zip(input_dimensions)
-                    .enumerate()
                     .rev()
                     .skip(op_dimension_count)
                 {
                     if *x == *d - 1 {
                         *x = 0;
                     } else {
-                        for (((index, slice), array), group_length) in flat_indices
-                            .iter_mut()
-                            .zip(slices.iter_mut())
-                            .zip(&arrays)
-                            .zip(&group_lengths)
-                        {
-                            if i < array.dimensions.len().saturating_sub(op_dimension_count)
-                                && array.dimensions[i] != 1
-                            {
-                                *index += group_length;
-                                *slice = &array.values[*index..*index + group_length];
-                            }
-                        }
-
                         *x += 1;
                         break;
                     }
@@ -796,6 +791,25 @@ impl Index<Vec<usize>> for Array {
     fn index(&self, indices: Vec<usize>) -> &Self::Output {
         &self.values[flatten_indices(&indices, &self.dimensions)]
     }
+}
+
+/// Computes the offset of a slice of `group_length` values in an array with the leading `dimensions`, at the leading
+/// `indices` of the dimensions being broadcast to. The dimensions are aligned to the last index, and dimensions of one
+/// are not iterated over.
+fn slice_offset(indices: &[usize], dimensions: &[usize], group_length: usize) -> usize {
+    let skipped_count = indices.len() - dimensions.len();
+    let mut offset = 0;
+    for i in 0..dimensions.len() {
+        let index = if dimensions[i] == 1 {
+            0
+        } else {
+            indices[skipped_count + i]
+        };
+
+        offset = offset * dimensions[i] + index;
+    }
+
+    offset * group_length
 }
 
 /// Converts indices by dimension to a single flattened index.
